@@ -741,4 +741,144 @@ theorem C03_for_grass_loop (lo hi : Int) (inclusive : Bool) (fuel : Nat)
       have : (lo - (hi + -1)).toNat = (lo - hi).toNat + 1 := by omega
       rw [this]
 
+/-! ### argument binding -/
+
+/-- Number of declared parameters at index ≥ `npos` (counting from `i`) that are passed by name. -/
+def usedCount (names : List String) (npos : Nat) : Nat → List (String × Option Expr) → Nat
+  | _, [] => 0
+  | i, (p, _) :: r => (if npos ≤ i ∧ names.contains p = true then 1 else 0) + usedCount names npos (i + 1) r
+
+/-- What the arity rules demand of each declared parameter: one passed by position is not also
+    named; one not passed by position is named or has a default. -/
+def ParamsOk (names : List String) (npos : Nat) (i : Nat) (ps : List (String × Option Expr)) : Prop :=
+  ∀ j p d, ps[j]? = some (p, d) →
+    (i + j < npos → names.contains p = false) ∧ (npos ≤ i + j → names.contains p = true ∨ d.isSome = true)
+
+theorem go_iff (names : List String) (npos : Nat) :
+    ∀ (ps : List (String × Option Expr)) (i used u : Nat),
+      verifyArgs.go npos names i ps used = .inr u ↔
+        ParamsOk names npos i ps ∧ u = used + usedCount names npos i ps
+  | [], i, used, u => by
+    simp [verifyArgs.go, ParamsOk, usedCount, eq_comm]
+  | (p, d) :: rest, i, used, u => by
+    have ih := go_iff names npos rest (i + 1)
+    have hcons : ParamsOk names npos i ((p, d) :: rest) ↔
+        ((i < npos → names.contains p = false) ∧ (npos ≤ i → names.contains p = true ∨ d.isSome = true)) ∧
+        ParamsOk names npos (i + 1) rest := by
+      unfold ParamsOk
+      constructor
+      · intro h
+        refine ⟨by simpa using h 0 p d rfl, ?_⟩
+        intro j q e hj
+        have := h (j + 1) q e (by simpa using hj)
+        simpa [Nat.add_assoc, Nat.add_comm 1 j] using this
+      · rintro ⟨h0, hr⟩ j q e hj
+        cases j with
+        | zero => simp at hj; obtain ⟨rfl, rfl⟩ := hj; simpa using h0
+        | succ j =>
+          have := hr j q e (by simpa using hj)
+          simpa [Nat.add_assoc, Nat.add_comm 1 j] using this
+    rw [hcons]
+    unfold verifyArgs.go usedCount
+    by_cases h1 : i < npos
+    · have h1' : ¬ npos ≤ i := by omega
+      by_cases h2 : names.contains p = true
+      · simp [h1, h2]
+      · simp only [h1, if_true, h2, Bool.false_eq_true, if_false, h1', false_and, Nat.zero_add]
+        rw [ih]; simp [h2]
+    · have h1' : npos ≤ i := by omega
+      by_cases h2 : names.contains p = true
+      · simp only [h1, if_false, h2, if_true, h1', true_and]
+        rw [ih]
+        simp [h2, h1']
+        constructor
+        · rintro ⟨a, rfl⟩; exact ⟨a, by omega⟩
+        · rintro ⟨a, rfl⟩; exact ⟨a, by omega⟩
+      · cases hd : d with
+        | none => simp [h1, h2, hd, h1']
+        | some e =>
+          simp only [h1, if_false, h2, Bool.false_eq_true, Option.isNone_some, h1', and_false, Nat.zero_add]
+          rw [ih]; simp [h2, h1']
+
+/-- **Arity errors ⇔ binding fails.**  `verifyArgs` accepts a call exactly when every declared
+    parameter can be bound (not passed twice; passed, named or defaulted) and — without a rest
+    parameter — there is no surplus positional argument and every name was consumed by a declared
+    parameter (`names.length ≤ usedCount`; with pairwise distinct names this says that every name
+    is a declared parameter not passed by position). -/
+theorem C03_verify_iff (ps : Params) (npos : Nat) (names : List String) :
+    bindable ps npos names = true ↔
+      ParamsOk names npos 0 ps.ps ∧
+      (ps.rest = none → npos ≤ ps.ps.length ∧ names.length ≤ usedCount names npos 0 ps.ps) := by
+  unfold bindable verifyArgs
+  cases hgo : verifyArgs.go npos names 0 ps.ps 0 with
+  | inl e =>
+    have : ¬ ParamsOk names npos 0 ps.ps := by
+      intro hp
+      have := (go_iff names npos ps.ps 0 0 (0 + usedCount names npos 0 ps.ps)).2 ⟨hp, rfl⟩
+      rw [hgo] at this; cases this
+    simp only []
+    constructor
+    · intro h
+      -- the error branch returns an error, never `none`
+      exfalso
+      have hne : ∀ (x : Option Err ⊕ Nat) e', x = .inl e' → verifyArgs.go npos names 0 ps.ps 0 = x → e' ≠ none := by
+        intro x e' hx hgo'
+        subst hx
+        clear hgo h this
+        -- every `.inl` produced by `go` carries `some _`
+        have key : ∀ (l : List (String × Option Expr)) (i used : Nat) (e'' : Option Err),
+            verifyArgs.go npos names i l used = .inl e'' → e'' ≠ none := by
+          intro l
+          induction l with
+          | nil => intro i used e'' h; simp [verifyArgs.go] at h
+          | cons hd tl ih =>
+            intro i used e'' h
+            obtain ⟨p, d⟩ := hd
+            unfold verifyArgs.go at h
+            split at h
+            · split at h
+              · cases h; simp
+              · exact ih _ _ _ h
+            · split at h
+              · exact ih _ _ _ h
+              · split at h
+                · cases h; simp
+                · exact ih _ _ _ h
+        exact key _ _ _ _ hgo'
+      have := hne _ e rfl hgo
+      cases e with
+      | none => exact this rfl
+      | some e' => simp at h
+    · rintro ⟨hp, _⟩; exact absurd hp this
+  | inr used =>
+    obtain ⟨hp, hu⟩ := (go_iff names npos ps.ps 0 0 used).1 hgo
+    simp only [Nat.zero_add] at hu
+    subst hu
+    simp only [hp, true_and]
+    cases hr : ps.rest with
+    | some r => simp
+    | none =>
+      simp only [Option.isSome_none, Bool.false_eq_true, if_false, true_implies]
+      by_cases h1 : npos > ps.ps.length
+      · simp [h1]; omega
+      · by_cases h2 : usedCount names npos 0 ps.ps < names.length
+        · simp [h1, h2]; omega
+        · simp [h1, h2]; omega
+
+example : bindable ⟨[("a", none), ("b", some (.lit .null))], none⟩ 1 [] = true ∧
+    bindable ⟨[("a", none), ("b", none)], none⟩ 1 [] = false ∧
+    bindable ⟨[("a", none)], none⟩ 2 [] = false ∧
+    bindable ⟨[("a", none)], some "rest"⟩ 3 ["zz"] = true ∧
+    bindable ⟨[("a", none)], none⟩ 1 ["a"] = false := by decide
+
+/-- Consequences used by the binder: after a successful arity check no `missing-argument` can
+    arise while binding, and no parameter is bound twice. -/
+theorem C03_verify_ok_binds (ps : Params) (npos : Nat) (names : List String)
+    (h : verifyArgs ps npos names = none) (j : Nat) (p : String) (d : Option Expr)
+    (hj : ps.ps[j]? = some (p, d)) :
+    (j < npos → p ∉ names) ∧ (npos ≤ j → p ∈ names ∨ d.isSome = true) := by
+  have hb : bindable ps npos names = true := by simp [bindable, h]
+  have := ((C03_verify_iff ps npos names).1 hb).1 j p d hj
+  simpa using this
+
 end Grass.Eval
